@@ -327,6 +327,7 @@ for ci, chunk in enumerate(_chunks(SEQS, 12)):
         c.requires("all([env[n] > 0 for n in env])")
         c.ensures("typename(result) == 'AtomBase' and result.value == ev(ast, env)", "value-of-the-documented-evaluation-order")
         c.no_raise()
+        c.modifies("self.expr", "self.tokens.left", "self.tokens.right", "self.tokens.left[]", "self.tokens.right[]")   # nothing else is carried from one solve to the next
 
 
 @contract(f"{ES}.solve", ["C01", "C02"], name="ExpressionSolver.solve[ill-formed]")
@@ -337,6 +338,7 @@ def _(c):
         c.scenario(text.strip() or "<empty>", _solve_pre(text))
     c.requires("all([env[n] > 0 for n in env])")   # a negative numeral in place of a name would change the shape of the text
     c.raises("True", label="rejected-with-an-error")
+    c.modifies("self.expr", "self.tokens.left", "self.tokens.right", "self.tokens.left[]", "self.tokens.right[]")   # nothing else is carried from one solve to the next
 
 
 # C02: whatever an earlier solve left in the instance (any tokens in either buffer, any previous expression) has
@@ -373,6 +375,7 @@ def _(c):
     c.requires("all([env[n] > 0 for n in env])")
     c.ensures("typename(result) == 'AtomBase' and result.value == ev(ast, env)", "same-value-as-a-fresh-instance")
     c.no_raise()
+    c.modifies("self.expr", "self.tokens.left", "self.tokens.right", "self.tokens.left[]", "self.tokens.right[]")   # nothing else is carried from one solve to the next
 
 
 # the same from instances that really solved something before (successfully or not), with the caller keeping and editing
@@ -406,6 +409,7 @@ def _(c):
     c.requires("all([env[n] > 0 for n in env])")
     c.ensures("typename(result) == 'AtomBase' and result.value == ev(ast, env)", "same-value-as-a-fresh-instance")
     c.no_raise()
+    c.modifies("self.expr", "self.tokens.left", "self.tokens.right", "self.tokens.left[]", "self.tokens.right[]")   # nothing else is carried from one solve to the next
 
 
 @contract(f"{ES}.solve", ["C02"], name="ExpressionSolver.solve[ill-formed-after-arbitrary-history]")
@@ -424,6 +428,7 @@ def _(c):
         c.scenario(f"{text.strip() or '<empty>'} asked twice", _history_pre(text, None, ["a + b", text] if i % 2 else [text], False))
     c.requires("all([env[n] > 0 for n in env])")
     c.raises("True", label="same-error-as-a-fresh-instance")
+    c.modifies("self.expr", "self.tokens.left", "self.tokens.right", "self.tokens.left[]", "self.tokens.right[]")   # nothing else is carried from one solve to the next
 
 
 # ---- tables ----------------------------------------------------------------------------------------------------
